@@ -328,6 +328,10 @@ func DB3ToMCAP(w io.Writer,
 		}
 	}
 	seq := make(map[uint16]uint32)
+	messageTopics := make(map[uint16]struct{}, len(topics))
+	for _, t := range topics {
+		messageTopics[t.id] = struct{}{}
+	}
 	err = transformMessages(db, func(rows *sql.Rows) error {
 		var topicID uint16
 		var messageTimestamp int64
@@ -339,6 +343,11 @@ func DB3ToMCAP(w io.Writer,
 		)
 		if err != nil {
 			return err
+		}
+		// only topics whose type is a message type were given a channel; rows of other topics
+		// (services, actions) are not messages and are not converted
+		if _, ok := messageTopics[topicID]; !ok {
+			return nil
 		}
 		err = writer.WriteMessage(&mcap.Message{
 			ChannelID:   topicID,
